@@ -72,7 +72,7 @@ Step(o) ==
   LET p == POf(E) IN
   /\ Do(p)
   /\ ever' = IF p.t \in {"oadd", "oupd", "odel"} THEN [ever EXCEPT ![p.r][p.o] = @ \cup {p.rv}]
-              ELSE IF p.t = "addev" THEN [ever EXCEPT ![sres[p.s]][p.o] = @ \cup {p.rv}] ELSE ever
+              ELSE IF p.t \in {"addev", "remev"} THEN [ever EXCEPT ![sres[p.s]][p.o] = @ \cup {p.rv}] ELSE ever
   /\ infl' = [r \in Res |-> InFlightNext(r)] /\ pinfl' = infl
   /\ LET tol(h, e) == lop'.t \in {"add", "addev"} /\ h = lop'.h /\ e \in infl[lop'.r]
      IN obs' = [o EXCEPT !.recv = IF o.has /\ DOMAIN o.recv = Hs'
